@@ -408,8 +408,9 @@ def run_property(prop, tier, seed=0, budget_s=None, jobs=None, only=None, slice_
     assumptions=getattr(mod, 'ASSUMPTIONS', []),
   )
   if not getattr(mod, 'NO_EVIDENCE', False):
-    os.makedirs(os.path.join(VERIF, 'evidence'), exist_ok=True)
-    json.dump(ev, open(os.path.join(VERIF, 'evidence', prop + '.json'), 'w'), indent=1, sort_keys=True)
+    evdir = os.environ.get('VERIF_EVIDENCE_DIR') or os.path.join(VERIF, 'evidence')      # (seed trials write their evidence elsewhere)
+    os.makedirs(evdir, exist_ok=True)
+    json.dump(ev, open(os.path.join(evdir, prop + '.json'), 'w'), indent=1, sort_keys=True)
   print("%s tier=%s obligations=%d discharged=%d paths=%d forked=%d queries=%d solver_s=%.1f wall=%.1fs -> %s" % (
     prop, tier, len(obls), discharged, total_paths, forked, ev['coverage']['solver_queries'],
     ev['coverage']['solver_s'], wall, ev['coverage']['verdict']))
